@@ -316,6 +316,21 @@ CHECKS["C24"] = dict(
     technique="TLA+ binding spec + TLC-enumerated input family + TLC validation of both generated layers",
     design_ref="DESIGN.md section 4 C24, F.10", engine="InvokeBinding")
 
+CHECKS["C20"] = dict(
+    level="model_checking",
+    text=("The definition of each of the 68 built-ins is parsed AT CHECK TIME from the formula blocks of "
+          "doc/user_guide/dynamo0p3.rst into pv-ast (the oracle); LFRicBuiltins.tla gives it meaning over DoF "
+          "layouts owned|annexed|halo (documented range = owned, plus annexed iff DM and COMPUTE_ANNEXED_DOFS; "
+          "reductions over owned DoFs). For every built-in x DM on/off x annexed on/off x {plain, OMP parallel "
+          "do, OMP parallel + do with and without reproducible reductions} the generated PSy layer is itemised "
+          "and exported, and TLC runs definition and generated code from the same store for all scalar values "
+          "and fills: DocumentedValueInRange, UntouchedOutsideRange, ReductionOverOwned, NoNewUndefined."),
+    note=("Trusted: the itemiser of the generated text and the doc parser (a built-in whose block cannot be "
+          "parsed is unsupported). OpenMP variants are checked on one serialised execution per thread count "
+          "(races are C09). No finding on the unchanged tree."),
+    technique="TLA+ semantics of the documented formulae vs the generated code, executed by TLC over bounded inputs",
+    design_ref="DESIGN.md section 4 C20", engine="FortranSem")
+
 NOT_YET = {}
 
 ALL = [f"C{i:02d}" for i in range(1, 30)]
